@@ -46,18 +46,21 @@ def role_of(index):
     return "require"
 
 
-def render_batch(items):
-    """items: list of (index, role, condition text). Returns module source."""
-    w = ["import icontract\n", expr.GLOBALS_SRC,
+def render_batch(items, extra=None, prelude=""):
+    """items: list of (index, role, condition text). ``extra``: index -> further decorator arguments (text).
+    Returns module source."""
+    extra = extra or {}
+    w = ["import icontract\n", prelude, expr.GLOBALS_SRC,
          "class Holder:\n    def __init__(self, **kw):\n        self.__dict__.update(kw)\n    def __repr__(self):\n        return 'Holder()'\n",
          "def make():\n    C = 5\n    CL = [1]\n    fs = {}\n"]
     allp = ", ".join(expr.PARAMS)
     for idx, role, cond in items:
         if role == "invariant":
-            w.append("    @icontract.invariant(lambda self: {})\n    class K{}(Holder):\n        pass\n    fs[{}] = K{}\n".format(cond, idx, idx, idx))
+            w.append("    @icontract.invariant(lambda self: {}{})\n    class K{}(Holder):\n        pass\n    fs[{}] = K{}\n".format(cond, extra.get(idx, ""), idx, idx, idx))
         else:
             ps = ", ".join(expr.free_params(cond))
-            w.append("    @icontract.{}(lambda {}: {})\n    def f{}({}):\n        return 1\n    fs[{}] = f{}\n".format(role, ps, cond, idx, allp, idx, idx))
+            w.append("    @icontract.{}(lambda {}: {}{})\n    def f{}({}):\n        return 1\n    fs[{}] = f{}\n".format(
+                role, ps, cond, extra.get(idx, ""), idx, allp, idx, idx))
     w.append("    return fs\nFS = make()\n")
     return "".join(w)
 
